@@ -57,6 +57,7 @@ Definition n_g1 : str := [103; 49]%N.   (* g1 *)
 Definition n_lim : str := [108; 105; 109]%N.   (* lim *)
 Definition n_q : str := [113]%N.   (* q *)
 Definition n_none : str := [110; 111; 110; 101]%N.   (* none *)
+Definition n_g2 : str := [103; 50]%N.   (* g2 *)
 
 Definition nv_c15 : source :=
   [ SAssign n_x (EInt 10);
@@ -186,6 +187,13 @@ Definition nv_kn : source :=
     SExpr (call n_f [(EInt 0)]);
     SPrint (EVar n_t) ].
 
+Definition nv_shadow : source :=
+  [ SAssign n_g2 (EInt 7);
+    SAssign n_id (EFn [n_z] [SReturn (Some (EVar n_z))]);
+    SAssign n_f (EFn [n_n] [SFrom (EInt 1) (call n_id [(EVar n_n)]) false None (Some n_g2) false [SPrint (EVar n_g2)];
+      SReturn (Some (EVar n_g2))]);
+    SPrint (call n_f [(EInt 3)]) ].
+
 (* operands left to right, once; && / || skip the call on the right when the left operand decides; x is read when its
    operand is evaluated (before a later sibling modifies it); self(..) in `rec`: 31 lines *)
 Example C15_nv_order_program :
@@ -245,4 +253,12 @@ Example C01_nv_maybe_value_program :
   in_fragment2 nvp nv_kn = true /\ in_fragment1 nvp nv_kn = false /\
   vm_out nv_kn 5000 = (fst (run 5000 nv_kn), Done) /\ snd (run 5000 nv_kn) = RODone /\
   fst (run 5000 nv_kn) = [[110; 111; 110; 101]; [49]]%N.
+Proof. vm_compute. repeat split. Qed.
+
+(* a named counter with the name of a captured variable of the function, and a call in the upper bound (which does not mention
+   that name): the counter shadows the captured variable inside the loop only *)
+Example C01_nv_shadowing_counter_program :
+  in_fragment2 nvp nv_shadow = true /\
+  vm_out nv_shadow 5000 = (fst (run 5000 nv_shadow), Done) /\ snd (run 5000 nv_shadow) = RODone /\
+  fst (run 5000 nv_shadow) = [[49]; [50]; [55]]%N.
 Proof. vm_compute. repeat split. Qed.
